@@ -233,6 +233,8 @@ func registerMoreIntrinsics() {
 		return e.tt.IntConst(-1, 64)
 	}
 	I["internal/bytealg.IndexByteString"] = I["strings.IndexByte"]
+	I["internal/stringslite.IndexByte"] = I["strings.IndexByte"]
+	I["internal/stringslite.Index"] = I["strings.Index"]
 	I["internal/bytealg.CountString"] = func(e *Engine, caller *frame, fn *ssa.Function, args []Value) Value {
 		s := args[0].(Str)
 		c := args[1].(*Term)
@@ -319,6 +321,9 @@ func registerMoreIntrinsics() {
 			return Tuple{(*Value)(nil), e.mkFmtError(fn, []Value{Str{s: err.Error()}, Slice(nil)})}
 		}
 		return Tuple{v, Iface{}}
+	}
+	I["regexp.QuoteMeta"] = func(e *Engine, caller *frame, fn *ssa.Function, args []Value) Value {
+		return Str{s: regexp.QuoteMeta(e.concretizeStr(args[0].(Str)))}
 	}
 	I["(*regexp.Regexp).FindStringIndex"] = func(e *Engine, caller *frame, fn *ssa.Function, args []Value) Value {
 		ro := (*args[0].(*Value)).(*RegexpObj)
@@ -537,6 +542,14 @@ func (e *Engine) parseFloat(fn *ssa.Function, s Str, bitSize int64) Value {
 	if exp.IsConst() && exp.Int() == 0 {
 		// plain (signed, possibly underscored) integer literal: exact value; mantissa < 10^4 < 2^16
 		v := tt.UBVToFP(tt.Extract(mant, 15, 0), F64Sort)
+		if neg.IsTrue() {
+			v = tt.FNeg(v)
+		}
+		return Tuple{v, Iface{}}
+	}
+	if exp.IsConst() && exp.Int() < 0 && exp.Int() >= -15 {
+		// d.dd literal: strconv's exact path, float64(mantissa) / 10^k, correctly rounded
+		v := tt.FDiv(tt.UBVToFP(tt.Extract(mant, 15, 0), F64Sort), tt.F64Const(math.Pow10(int(-exp.Int()))))
 		if neg.IsTrue() {
 			v = tt.FNeg(v)
 		}
